@@ -63,6 +63,8 @@ def main(tier, replay=None):
     if replay:
         with open(replay) as f:
             rep = json.load(f)
+        if rep.get("backend") == "cli-ndebug":
+            exe, _ = build.build_cli(ndebug=True)
         r = exec_plans(exe, rep["plans"], log=True)
         for l in r["logs"]:
             print("  " + l)
@@ -80,6 +82,10 @@ def main(tier, replay=None):
                Batch("outfault", exe, "C20", "outfault", seed, 6000 if q else 10**8, secs // 2, W, samples=True).run()]
     if not q:
         batches.append(Batch("nofault-longfile", exe, "C20", "nofault-longfile", seed + 2, 48, 300, W).run())
+    # the release configuration: tool and library compiled with -DNDEBUG (both Makefiles take CFLAGS from the user)
+    exe_nd, _ = build.build_cli(ndebug=True)
+    batches.append(Batch("nofault-ndebug", exe_nd, "C20", "nofault", seed + 3, 3000 if q else 10**8, 60 if q else 120, W).run())
+    batches.append(Batch("iofault-ndebug", exe_nd, "C20", "iofault", seed + 3, 2000 if q else 10**8, 60 if q else 120, W).run())
     violations, known, nondet = handle_candidates("C20", batches, budget=250)
     fidelity = fidelity_crosscheck(exe, seed, 15 if tier == "quick" else 400)
     if fidelity.get("mismatches"):
